@@ -276,7 +276,13 @@ func tryReplay(eng *Engine, o *Obligation, tmp string) (bool, map[string]interfa
 	}
 	m := &mq{u: u, o: o, tmp: tmp, cache: map[string]string{}}
 	model := map[string]interface{}{}
+	if o.Result.Status != "sat" {
+		info["note"] = "solver gave no model (" + o.Result.Status + "); the template falls back to its own boundary corpus"
+	}
 	for _, in := range u.inputs {
+		if o.Result.Status != "sat" {
+			break
+		}
 		if in.Name == "" || in.Name == "_" {
 			continue
 		}
